@@ -422,7 +422,7 @@ impl World {
             }
         }
         p.set_parms_id(id);
-        p.set_scale((1u64 << rng.range(1, 30)) as f64 * if rng.coin() { 1.0 } else { 1.5 });
+        p.set_scale(rand_scale(rng, 1, 30));
         p
     }
 
@@ -438,7 +438,7 @@ impl World {
                 }
             }
         }
-        let scale = if self.spec.scheme == CKKS { (1u64 << rng.range(1, 40)) as f64 } else { 1.0 };
+        let scale = if self.spec.scheme == CKKS { rand_scale(rng, 1, 80) } else { 1.0 };
         let cf = if self.spec.scheme == BGV && rng.coin() { 1 + rng.below(self.spec.t - 1) } else { 1 };
         Ciphertext::from_members(size, moduli.len(), n, data, level, scale, cf, ntt)
     }
@@ -447,6 +447,14 @@ impl World {
     pub fn default_ntt(&self) -> bool {
         self.spec.scheme != BFV
     }
+}
+
+/// A positive finite scale 2^k * (1 + f) with a full 52-bit random mantissa (what rescaling
+/// produces in practice), or an exact power of two.
+pub fn rand_scale(rng: &mut Prng, min_exp: usize, max_exp: usize) -> f64 {
+    let k = rng.range(min_exp, max_exp) as u64;
+    let frac = if rng.chance(1, 4) { 0 } else { rng.next_u64() & ((1u64 << 52) - 1) };
+    f64::from_bits(((1023 + k) << 52) | frac)
 }
 
 /// Field-wise description of a ciphertext for equality checks and diagnostics.
